@@ -177,6 +177,22 @@ def step (op : String) (gs : List (List Int)) : String :=
                             else { input := some k, mask := none, target := none }
       modResStr [applyMaskModule s]
     | none => "err BadOp"
+  | "bshape", [a, b] =>
+    -- numpy broadcast of two shapes (the index arithmetic all theorems rest on), tied to np.broadcast_shapes
+    if a.any (· < 0) || b.any (· < 0) then "err BadOp" else
+    match bShapeR (nats a).reverse (nats b).reverse with
+    | some s => okG [s.reverse.map Int.ofNat]
+    | none => "err ValueError"
+  | "bindex", [src, out] =>
+    -- for every flat output position: the flat source offset read under broadcasting (np.broadcast_to of arange)
+    if src.any (· < 0) || out.any (· < 0) then "err BadOp" else
+    let sR := (nats src).reverse
+    let oR := (nats out).reverse
+    if bShapeR sR oR ≠ some oR then "err ValueError" else
+    okG [(List.range (prodR oR)).map fun fl => Int.ofNat (ravelR sR (bIdxR sR (unravelR oR fl)))]
+  | "unravel", [shape, [fl]] =>
+    if shape.any (· < 0) || fl < 0 then "err BadOp" else
+    okG [(unravelR (nats shape).reverse fl.toNat).reverse.map Int.ofNat]
   | "loglik", [[kind], ms, md, ps, pd, ys, yd, [s]] =>
     match mkV ps pd, mkV ys yd with
     | some p, some y => withMask kind ms md (loglikStr p y s) (loglikStr p y s)
